@@ -112,6 +112,13 @@ N2=[ # neutral edits that need more than one replacement: (file, [(old,new)...],
  ("accountant/accountant.go",[("		visited[ancestorID] = struct{}{}\n\n		item, err := ab.dag.GetVertex(ancestorID)\n		if err != nil {\n			drainWalker(vertices)\n			return errors.Join(ErrUnexpected, err)\n		}\n		switch vrx := item.(type) {\n		case *Vertex:\n			if vrx == nil {\n				drainWalker(vertices)\n				return ErrUnexpected\n			}\n			if vrx.Hash == leaf.LeftParentHash","\n		item, err := ab.dag.GetVertex(ancestorID)\n		if err != nil {\n			drainWalker(vertices)\n			return errors.Join(ErrUnexpected, err)\n		}\n		switch vrx := item.(type) {\n		case *Vertex:\n			if vrx == nil {\n				drainWalker(vertices)\n				return ErrUnexpected\n			}\n			if vrx.Hash == leaf.LeftParentHash")],"drop a redundant de-duplication (the graph library's walker never delivers an id twice)"),
  ("transformers/transaction.go",[("	if prTrx == nil || prTrx.Subject == \"\" || prTrx.IssuerAddress == \"\" ||","	if prTrx == nil {\n		return transaction.Transaction{}, ErrTrxIsEmpty\n	}\n	if prTrx.Subject == \"\" || prTrx.IssuerAddress == \"\" ||")],"nil test moved into its own statement"),
 ]
+N3=[ # neutral edits by regular expression inside one function: (file, unique anchor of the function, regex, replacement, description)
+ ("accountant/accountant.go","func (ab *AccountingBook) validateLeaf(",r"\bleaf\b","tip","rename a parameter of a function under contract (validateLeaf: leaf -> tip)"),
+ ("accountant/accountant.go","func (ab *AccountingBook) CalculateBalance(",r"\bwalletPubAddr\b","address","rename a parameter (CalculateBalance: walletPubAddr -> address)"),
+ ("gossip/gossip.go","func (g *gossiper) verifyGossipers(",r"\bmember\b","entry","rename a range variable (verifyGossipers: member -> entry)"),
+ ("spice/spice.go","func Transfer(",r"\bamount\b","amt","rename a parameter (Transfer: amount -> amt)"),
+ ("notaryserver/notary.server.go","func (s *server) Confirm(",r"\btrx\b","confirmed","rename a local (Confirm: trx -> confirmed)"),
+]
 def mk(kind, name, f, old, new, within=None):
     p=os.path.join(REPO,'src',f)
     if not os.path.exists(p): return None
@@ -153,6 +160,19 @@ for j,(f,edits,desc) in enumerate(N2):
         src=src.replace(old,new,1)
     if not ok: continue
     open(p,'w').write(src)
+    d=subprocess.run(['git','-C',REPO,'diff','--','src'],capture_output=True,text=True).stdout
+    subprocess.run(['git','-C',REPO,'checkout','--','src/'+f])
+    open('/verif/selftest/neutral/'+name+'.patch','w').write(d)
+    nm.append({"name":name,"what":desc,"file":f})
+import re
+k=len(N)+len(N2)
+for j,(f,anchor,rx,repl,desc) in enumerate(N3):
+    name="neutral-%d"%(k+j+1)
+    p=os.path.join(REPO,'src',f); src=open(p).read()
+    if src.count(anchor)!=1: print("SKIP (anchor):",name); continue
+    a=src.index(anchor); b=src.find('\nfunc ',a+10)
+    if b<0: b=len(src)
+    open(p,'w').write(src[:a]+re.sub(rx,repl,src[a:b])+src[b:])
     d=subprocess.run(['git','-C',REPO,'diff','--','src'],capture_output=True,text=True).stdout
     subprocess.run(['git','-C',REPO,'checkout','--','src/'+f])
     open('/verif/selftest/neutral/'+name+'.patch','w').write(d)
